@@ -54,8 +54,8 @@ CHECKS = {
             "Five scenarios (concurrent orc_init; concurrent first calls through two once-guarded wrappers using the real orc_once_enter/leave; "
             "concurrent compile/take_code/run/free plus raw allocations of forced sizes; concurrent runs of one function while another thread "
             "compiles and frees; concurrent emulation and native runs of one shared code object on per-thread data, interleaved at every "
-            "emulated instruction) are executed for every interleaving of 2 threads (preemption bound 3 quick / 4-6 thorough) and 3 threads "
-            "(bound 2 / 2-4) at the hooked synchronisation points, each schedule in a fresh process. Oracles: no crash or deadlock, per-thread "
+            "emulated instruction) are executed for every interleaving of 2 threads (preemption bound 3 quick / 5-8 thorough) and 3 threads "
+            "(bound 2 / 2-5) at the hooked synchronisation points, each schedule in a fresh process. Oracles: no crash or deadlock, per-thread "
             "results correct, exactly-once initialisation with every caller seeing the initialised object, allocator invariants, and an end "
             "state equal to the sequential run. Failures are replayed twice before being reported.",
             "sequential consistency between scheduling points; the hook points cover the library's complete synchronisation inventory; unsynchronised accesses are left to the TSan pass",
